@@ -274,3 +274,200 @@ func replayObligation(w *World, prop string, o *Obligation, detail map[string]in
 	detail["replay"] = "the outputs of the real function on the model's inputs do not violate the clause (" + st + "): the refutation concerns an abstraction (loop or callee contract), no failing input found"
 	return false
 }
+
+var safetyKinds = map[string]bool{"bounds": true, "div64": true, "slicebounds": true, "makeslice": true, "div": true, "shift": true, "nil": true}
+
+// replaySweep handles refuted obligations that are not postconditions (invariants, assertions, callee
+// preconditions, call arguments, safety conditions): the model still names inputs of the function, so
+// the real function is run on them. A panic confirms a refuted safety condition; otherwise the outputs
+// actually returned are checked against every postcondition of the function (each one's negation must
+// be satisfiable with inputs and outputs pinned). Nothing is reported as confirmed unless the real code
+// misbehaves on the concrete input.
+func replaySweep(w *World, o *Obligation, all []*Obligation, detail map[string]interface{}) bool {
+	if o.Result == nil || o.Result.Status != "sat" || o.Kind == "ensures" || o.MustFail || o.vc == nil {
+		return false
+	}
+	fn := w.funcs[o.Func]
+	if fn == nil || fn.TypeParams().Len() > 0 || len(fn.TypeArgs()) > 0 || len(o.vc.Params) == 0 {
+		return false
+	}
+	var ens []*Obligation
+	for _, e := range all {
+		if e.Func == o.Func && e.Kind == "ensures" && len(e.ResultLeaves) > 0 && e.vc == o.vc {
+			ens = append(ens, e)
+		}
+	}
+	if len(ens) == 0 && !safetyKinds[o.Kind] {
+		return false
+	}
+	model := parseModel(o.Result.Model)
+	var sb strings.Builder
+	sb.WriteString("package " + w.tpkg.Name() + "\n\nimport (\n\t\"fmt\"\n\t\"testing\"\n)\n\n")
+	sb.WriteString("func TestVerifReplay(t *testing.T) {\n\tdefer func() {\n\t\tif r := recover(); r != nil {\n\t\t\tfmt.Printf(\"REPLAY-PANIC %v\\n\", r)\n\t\t}\n\t}()\n")
+	inputs := map[string]string{}
+	var pins, args []string
+	recv := ""
+	for k, p := range o.vc.Params {
+		if p.Unsupported != "" {
+			return false
+		}
+		v := fmt.Sprintf("p%d", k)
+		sb.WriteString(fmt.Sprintf("\tvar %s %s\n", v, p.GoType))
+		for _, l := range p.Leaves {
+			val, ok := model[l.Term]
+			if !ok {
+				if isAtom(l.Term) && strings.HasPrefix(l.Term, "|") {
+					// not in the cone of this obligation: any value will do
+					val = "0"
+					if l.Type == "bool" {
+						val = "false"
+					}
+				} else {
+					val = l.Term
+				}
+			}
+			lit, ok := goLiteral(val, l.Type)
+			if !ok {
+				return false
+			}
+			if l.Path == "" {
+				sb.WriteString(fmt.Sprintf("\t%s = %s(%s)\n", v, p.GoType, lit))
+			} else {
+				sb.WriteString(fmt.Sprintf("\t%s%s = %s\n", v, l.Path, lit))
+			}
+			inputs[p.Name+l.Path] = val
+			pins = append(pins, fmt.Sprintf("(assert (= %s %s))", l.Term, val))
+		}
+		if p.Receiver {
+			recv = v
+		} else {
+			args = append(args, v)
+		}
+	}
+	nres := fn.Signature.Results().Len()
+	var rs []string
+	for k := 0; k < nres; k++ {
+		rs = append(rs, fmt.Sprintf("r%d", k))
+	}
+	call := fn.Name() + "(" + strings.Join(args, ", ") + ")"
+	if recv != "" {
+		call = recv + "." + call
+	}
+	if nres > 0 {
+		sb.WriteString("\t" + strings.Join(rs, ", ") + " := " + call + "\n")
+		for _, r := range rs {
+			sb.WriteString("\t_ = " + r + "\n")
+		}
+	} else {
+		sb.WriteString("\t" + call + "\n")
+	}
+	if len(ens) > 0 {
+		for _, l := range ens[0].ResultLeaves {
+			sb.WriteString(fmt.Sprintf("\tfmt.Printf(\"REPLAY-LEAF %%s %%v\\n\", %q, %s)\n", l.Path, l.Path))
+		}
+	}
+	sb.WriteString("}\n")
+	replayMu.Lock()
+	replaySeq++
+	seq := replaySeq
+	replayMu.Unlock()
+	dir := filepath.Join(w.verif, "work", "replay")
+	os.MkdirAll(dir, 0o755)
+	testFile := filepath.Join(dir, fmt.Sprintf("replay_%d_test.go", seq))
+	os.WriteFile(testFile, []byte(sb.String()), 0o644)
+	ov := filepath.Join(dir, fmt.Sprintf("ov_%d.json", seq))
+	ovData, _ := json.Marshal(map[string]map[string]string{"Replace": {filepath.Join(w.repo, "zz_verif_replay_test.go"): testFile}})
+	os.WriteFile(ov, ovData, 0o644)
+	ctx, cancel := context.WithTimeout(context.Background(), 120*time.Second)
+	defer cancel()
+	cmd := exec.CommandContext(ctx, "go", "test", "-overlay", ov, "-vet=off", "-timeout", "60s", "-run", "^TestVerifReplay$", "-count=1", "-v", ".")
+	cmd.Dir = w.repo
+	cmd.Env = append(os.Environ(), "GOFLAGS=-mod=mod", "GOPROXY=off", "GOSUMDB=off", "GOTOOLCHAIN=local")
+	var buf bytes.Buffer
+	cmd.Stdout = &buf
+	cmd.Stderr = &buf
+	cmd.Run()
+	out := buf.String()
+	if len(out) > 4000 {
+		out = out[:4000]
+	}
+	detail["replay_inputs"] = inputs
+	detail["replay_test_source"] = testFile
+	detail["replay_output"] = out
+	hasPanicsClause := false
+	if c := w.contracts.Funcs[o.Func]; c != nil && c.HasPanics {
+		hasPanicsClause = true
+	}
+	if strings.Contains(out, "REPLAY-PANIC") {
+		if safetyKinds[o.Kind] || !hasPanicsClause {
+			detail["replay"] = "confirmed: the real function panics on the model's inputs"
+			return true
+		}
+		detail["replay"] = "the real function panics on the model's inputs, which its contract allows for some inputs; not counted as confirmation"
+		return false
+	}
+	if strings.Contains(out, "panic: test timed out") {
+		detail["replay"] = "confirmed: the real function does not return on the model's inputs within 60 s"
+		return true
+	}
+	observed := map[string]string{}
+	for _, line := range strings.Split(out, "\n") {
+		if strings.HasPrefix(line, "REPLAY-LEAF ") {
+			f := strings.Fields(line)
+			if len(f) == 3 {
+				observed[f[1]] = f[2]
+			}
+		}
+	}
+	detail["replay_observed"] = observed
+	if len(ens) == 0 || len(observed) != len(ens[0].ResultLeaves) {
+		detail["replay"] = "the real function returned normally on the model's inputs; no postcondition could be evaluated on its outputs"
+		return false
+	}
+	if len(ens) > 40 {
+		ens = ens[:40]
+	}
+	for _, e := range ens {
+		epins := append([]string{}, pins...)
+		okPins := true
+		for _, l := range e.ResultLeaves {
+			obs := observed[l.Path]
+			var lit string
+			if l.Type == "bool" {
+				lit = obs
+			} else {
+				n, ok := new(big.Int).SetString(obs, 10)
+				if !ok {
+					okPins = false
+					break
+				}
+				if e.vc.Mode == "bv" {
+					lit = bvT(n, goWidths[l.Type].W).S
+				} else {
+					lit = intLit(n)
+				}
+			}
+			epins = append(epins, fmt.Sprintf("(assert (= %s %s))", l.Term, lit))
+		}
+		if !okPins {
+			continue
+		}
+		text := e.SMT(w.prelude[e.vc.Mode], false)
+		if i := strings.LastIndex(text, "(check-sat)"); i >= 0 {
+			text = text[:i]
+		}
+		text += strings.Join(epins, "\n") + "\n(check-sat)\n"
+		pinFile := filepath.Join(dir, fmt.Sprintf("pinned_%d_%s.smt2", seq, identSan.ReplaceAllString(e.ID, "_")))
+		os.WriteFile(pinFile, []byte(text), 0o644)
+		st, _, _ := runSolver(solvers[0], pinFile, 10)
+		if st == "sat" {
+			detail["replay_pinned_query"] = pinFile
+			detail["replay_violated_postcondition"] = e.ID + ": " + e.Note
+			detail["replay"] = "confirmed: the real function, called with the model's inputs, returns outputs that violate its postcondition " + e.ID
+			return true
+		}
+		os.Remove(pinFile)
+	}
+	detail["replay"] = "the real function, run on the model's inputs, satisfies all its postconditions: the refutation concerns an intermediate condition (invariant, assertion, callee contract); no failing input found"
+	return false
+}
